@@ -362,10 +362,12 @@ func (p *printer) expr(e *E) string {
 	case "bool":
 		return fmt.Sprint(e.B)
 	case "str":
-		if e.Spell != "" {
-			return e.Spell
+		t := e.Spell
+		if t == "" {
+			t = goStringLit(e.S, e.Raw)
 		}
-		return goStringLit(e.S, e.Raw)
+		p.extra += strings.Count(t, "\n") // a raw string may span lines
+		return t
 	case "zero":
 		return "nil"
 	case "var":
